@@ -24,7 +24,6 @@ import (
 	"fmt"
 	"github.com/nuts-foundation/go-did/did"
 	"github.com/nuts-foundation/nuts-node/crypto/hash"
-	"reflect"
 	"strings"
 	"time"
 )
@@ -101,14 +100,11 @@ func (r DIDKeyResolver) baseUrl(doc *did.Document) (baseUrl *string) {
 	context := doc.Context
 	for i := range context {
 		ctx := context[i]
-		if reflect.ValueOf(ctx).Kind() == reflect.Map {
-			m := ctx.(map[string]interface{})
-			if val, ok := m["@base"]; ok {
-				valStr := val.(string)
+		if m, ok := ctx.(map[string]interface{}); ok {
+			if valStr, ok := m["@base"].(string); ok {
 				baseUrl = &valStr
 				break
 			}
-
 		}
 	}
 	return baseUrl
